@@ -361,6 +361,36 @@ def order(R, ctx):
         R.ob(rid, "pop|sorted-after-extend", ok, ctx.where(f), "reuse pool sorted after the unordered extend: %s" % ok)
 
 
+def outdir(R, ctx):
+    rid = "C11.outdir"
+    lib = ctx.lib
+    from .. import guards
+    R.rule(rid, "WorkerTree::collect_work (single input file + output): the output path itself is registered as the output *file* only on a "
+                "branch where Resources::is_directory(output) answered false; an existing directory always receives <output>/<input file name>")
+    fn = lib.fn("frontend::worker_tree::WorkerTree::collect_work")
+    if not R.require(rid, "anchor:collect_work", fn is not None, "", "not found"):
+        return
+    fa = ctx.an.fa(fn["path"])
+    M = guards.Mentions(ctx.an)
+    isdir = guards.is_call_named("is_directory")
+    regs = [c for c in thir.calls(fn) if c.get("fname") == "add_source_if_missing"]
+    R.require(rid, "anchor:registrations", len(regs) >= 4, ctx.where(fn), "%d add_source_if_missing calls" % len(regs))
+    n = 0
+    for c in regs:
+        out = c["args"][2]
+        joined = any(y.get("fname") == "join" for y in thir.walk(out) if y.get("k") == "Call")
+        names = {v.get("name") for v in thir.walk(out) if v.get("k") == "Var"}
+        if "output" not in names:
+            continue
+        if joined:
+            continue
+        n += 1
+        ok = any(kd == "else" and M.mentions(fa, cond, isdir, 0) for cond, kd in guards.conditions_of(fa, c))
+        R.ob(rid, "collect_work|bare-output-only-if-not-directory@%d" % n, ok, ctx.where(fn, c.get("ln")),
+             "the output path is used as a file %s" % ("only after is_directory(output) was false" if ok else "without ruling out that it is an existing directory (the file would be written over / next to the directory)"))
+    R.require(rid, "floor", n >= 1, ctx.where(fn), "%d bare-output registrations" % n)
+
+
 def run(R, ctx):
     R.explanation = (
         "Who-may-write tables, MIR dominance/must-pass rules on the worker's write/done/flush paths, the error arm of the work loop, "
@@ -374,5 +404,6 @@ def run(R, ctx):
     apply_rules_paths(R, ctx)
     flush(R, ctx)
     isolate(R, ctx)
+    outdir(R, ctx)
     shared_state(R, ctx)
     order(R, ctx)
